@@ -275,25 +275,41 @@ func VerifC01_Zhpr2() { verifC01zhr("Zhpr2", 2, true) }
 
 // ---- triangular matrix-vector products and solves: dense, band, packed ----
 
+// verifC01z2solveDiag prepares the diagonal of a non-unit triangular solve of order n.
+// n <= zsym (param, default 1): symbolic diagonal entries assumed non-zero (documented: no test for
+// singularity). Larger n: the diagonal entries are fixed, pairwise different, non-real values
+// 1+1i, 2-2i, 4+4i, ... (|d|^2 a power of two: Ztrsm multiplies by the concretely evaluated reciprocal
+// 1/d, which must be exact for an exact-real oracle) while every other cell stays symbolic: a complex division by a
+// symbolic value is (ac+bd)/(c^2+d^2), and op(A)*x_out == x_in with nested quotients of that kind
+// costs z3 minutes per query from n == 2 on (Ztrsm m,n <= 2: 84 min of solver time); division by a
+// constant keeps the obligations polynomial.
+func verifC01z2solveDiag(n int, a []complex128, idx func(i, j int) int) {
+	for i := 0; i < n; i++ {
+		p := idx(i, i)
+		if n <= verifParam("zsym", 1) {
+			verifAssume(verifOr(real(a[p]) != 0, imag(a[p]) != 0))
+			continue
+		}
+		re := float64(int(1) << uint(i))
+		im := re
+		if i%2 == 1 {
+			im = -im
+		}
+		a[p] = complex(re, im)
+	}
+}
+
 func verifC01ztr(name string, scheme int, solve bool) {
 	ul := verifC01uplo("uplo")
 	tA := verifC01trans("trans")
 	dg := verifC01diag("diag")
-	maxN := verifParam("zn", 2) + 1
-	if solve {
-		// complex division makes op(A)*x_out == x_in expensive for the solver (Ztrsv n <= 3: 25 min of z3 time)
-		maxN = verifParam("zsn", 2)
-	}
-	n := verifChoose("n", 0, maxN)
+	n := verifChoose("n", 0, verifParam("zn", 2)+1)
 	st := verifC01zmkStore(scheme, ul, n)
 	incX := verifC01inc("incX")
 	slack := verifChoose("slack", 0, 1)
 	x := verifComplexes("x", verifC01vlen(n, incX, slack))
 	if solve && dg == blas.NonUnit {
-		for i := 0; i < n; i++ {
-			d := st.a[st.idx(i, i)]
-			verifAssume(verifOr(real(d) != 0, imag(d) != 0))
-		}
+		verifC01z2solveDiag(n, st.a, st.idx)
 	}
 	a0, x0 := verifC01zclone(st.a), verifC01zclone(x)
 	im := Implementation{}
@@ -562,9 +578,7 @@ func verifC01ztrm(name string, solve bool) {
 	b := verifComplexes("b", verifC01mlen(m, n, ldb, padB))
 	alpha := verifC01zalpha()
 	if solve && dg == blas.NonUnit && m > 0 && n > 0 {
-		for i := 0; i < ka; i++ {
-			verifAssume(verifOr(real(a[i*lda+i]) != 0, imag(a[i*lda+i]) != 0))
-		}
+		verifC01z2solveDiag(ka, a, verifC01zdenseIdx(lda))
 	}
 	a0, b0 := verifC01zclone(a), verifC01zclone(b)
 	if solve {
